@@ -158,6 +158,44 @@ inline void run(Ctx& C) {
       }
     }
   }
+  // ---- 1b. every code unit in a document whose string pool already holds the text in front of the escape (and the
+  //          decoded text itself): de-duplication must compare whole strings, whatever the escape decodes to
+  for (uint32_t u = 0; u < 0x10000; u++) {
+    if (isSur(uint16_t(u))) continue;
+    if (!C.take()) continue;
+    char kb[64];
+    snprintf(kb, sizeof kb, "uni-pooled:%04x", u);
+    C.begin(kb);
+    std::string esc = spell(uint16_t(u), 0), dec = utf8(u);
+    std::string text = "[\"x\",\"x" + esc + "\",\"x" + esc + "y\",\"" + esc + "\",\"\",{\"x\":0,\"x" + esc + "\":1,\"" + esc + "\":2}]";
+    std::vector<std::string> want = {"x", "x" + dec, "x" + dec + "y", dec, ""};
+    std::vector<std::string> wantKeys = {"x", "x" + dec, dec};
+    for (int sized = 0; sized < 2; sized++) {
+      JsonDocument doc;
+      DeserializationError err = sized ? deserializeJson(doc, text.data(), text.size()) : deserializeJson(doc, text.c_str());
+      if (err != DeserializationError::Ok) {
+        C.fail("pooled-decode", std::string("code=") + err.c_str());
+        continue;
+      }
+      for (size_t i = 0; i < want.size(); i++) {
+        JsonString js = doc[i].as<JsonString>();
+        std::string got = js.c_str() ? std::string(js.c_str(), js.size()) : std::string("<null>");
+        if (got != want[i]) C.fail("pooled-decode", "element " + std::to_string(i) + ": got " + verif::hex(got) + " want " + verif::hex(want[i]));
+      }
+      if (dec == "x") continue;  // the three keys would not be distinct
+      JsonObject o = doc[want.size()].as<JsonObject>();
+      size_t n = 0;
+      for (JsonPair kv : o) {
+        std::string got(kv.key().c_str(), kv.key().size());
+        if (n < wantKeys.size() && (got != wantKeys[n] || kv.value().as<int>() != int(n)))
+          C.fail("pooled-decode", "member " + std::to_string(n) + ": key " + verif::hex(got) + " want " + verif::hex(wantKeys[n]));
+        n++;
+      }
+      if (n != 3) C.fail("pooled-decode", "object has " + std::to_string(n) + " members");
+    }
+    if (u < 0x20 || u >= 0x80) C.nontrivial();
+    C.end();
+  }
   // ---- 2. unpaired surrogates in four contexts (document must stay usable)
   for (uint32_t u = 0xD800; u < 0xE000; u++) {
     for (int ctx = 0; ctx < 4; ctx++) {
@@ -293,7 +331,7 @@ inline void run(Ctx& C) {
       C.end();
     }
   }
-  C.bound(T ? "all 65536 code units x 3 casings x 5 positions; all 2^20 surrogate pairs; all 256+65536 byte strings as value and key"
-            : "all 65536 code units x 3 casings x 5 positions; 124x124 surrogate pair grid; all 256+65536 byte strings as value and key");
+  C.bound(T ? "all 65536 code units x 3 casings x 5 positions; every non-surrogate code unit in a document that already pools its prefix; all 2^20 surrogate pairs; all 256+65536 byte strings as value and key"
+            : "all 65536 code units x 3 casings x 5 positions; every non-surrogate code unit in a document that already pools its prefix; 124x124 surrogate pair grid; all 256+65536 byte strings as value and key");
 }
 }  // namespace nx_unicode
